@@ -20,8 +20,8 @@ def renderValH (h : List (List Val)) : Nat → Val → List B
 def renderV (m : M) (v : Val) : List B := renderValH m.heap 66 v
 
 /-- a fresh VM with one context holding one frame over the program -/
-def load (prog : List Instr) : M :=
-  { ctx := { frames := [{ code := prog }] } }
+def load (prog : List Instr) (parse : List B → Option (List Instr) := fun _ => none) : M :=
+  { ctx := { frames := [{ code := prog }] }, parse := parse }
 
 def renderStack (m : M) : List B :=
   let bases := (m.ctx.frames.reverse.map (fun f => renderNat f.base))
@@ -45,8 +45,9 @@ def errCodes (m : M) : List B :=
   joinWith [44] ((m.diags.filter (fun d => d.level ≤ 1)).map (fun d => renderNat d.code))
 
 /-- the observation of `run` / `trace` -/
-def observe (prog : List Instr) (globals : List Name) (maxSteps : Nat) (trace : Bool) : List B :=
-  let (m, r, limit, steps) := runTrace maxSteps (load prog) []
+def observe (prog : List Instr) (globals : List Name) (maxSteps : Nat) (trace : Bool)
+    (parse : List B → Option (List Instr) := fun _ => none) : List B :=
+  let (m, r, limit, steps) := runTrace maxSteps (load prog parse) []
   match r with
   | .hang => bytes "timeout"
   | .crash => bytes "cpp-exception:std::out_of_range"
